@@ -79,13 +79,23 @@ def audit_sources():
 THEOREM_RE = re.compile(r"^\s*(?:@\[[^\]]*\]\s*)?(?:protected\s+|private\s+)?theorem\s+([A-Za-z_][A-Za-z0-9_'.]*)", re.M)
 
 
+def property_modules(pid):
+    """Properties/Cxx.lean and any further module Properties/Cxx_<topic>.lean of the same property"""
+    pdir = os.path.join(core.LEAN_DIR, "PyProb", "Properties")
+    mods = [pid] if os.path.exists(os.path.join(pdir, pid + ".lean")) else []
+    mods += sorted(f[:-5] for f in os.listdir(pdir) if f.startswith(pid + "_") and f.endswith(".lean"))
+    return mods
+
+
 def property_theorems(pid):
-    path = os.path.join(core.LEAN_DIR, "PyProb", "Properties", pid + ".lean")
-    with open(path, encoding="utf-8") as fh:
-        code = strip_comments(fh.read())
     # property theorems are the public ones named after the property (helpers are private and are
     # covered transitively by the axiom report of the theorems that use them)
-    return [n for n in THEOREM_RE.findall(code) if n.startswith(pid + "_")]
+    names = []
+    for mod in property_modules(pid):
+        with open(os.path.join(core.LEAN_DIR, "PyProb", "Properties", mod + ".lean"), encoding="utf-8") as fh:
+            code = strip_comments(fh.read())
+        names += [n for n in THEOREM_RE.findall(code) if n.startswith(pid + "_")]
+    return names
 
 
 def audit_axioms(pid):
@@ -97,7 +107,7 @@ def audit_axioms(pid):
     os.makedirs(adir, exist_ok=True)
     path = os.path.join(adir, f"{pid}_{os.getpid()}.lean")
     with open(path, "w") as fh:
-        fh.write(f"import PyProb.Properties.{pid}\nnamespace PyProb.{pid}\n")
+        fh.write("".join(f"import PyProb.Properties.{m}\n" for m in property_modules(pid)) + f"namespace PyProb.{pid}\n")
         for nm in names:
             fh.write(f"#print axioms {nm}\n")
         fh.write(f"end PyProb.{pid}\n")
@@ -218,7 +228,7 @@ def main():
             driver_ok = False
             broken.append({"kind": "model-build", "what": "the models no longer build against the extracted facts", "log": exc.log[-1500:]})
         try:
-            core.lake_build([f"PyProb.Properties.{pid}"])
+            core.lake_build([f"PyProb.Properties.{m}" for m in property_modules(pid)])
             axioms = audit_axioms(pid)
         except BuildBroken as exc:
             errs = re.findall(r"error: (\S+?:\d+:\d+): ([^\n]*)", exc.log)
@@ -230,7 +240,7 @@ def main():
     # thorough: independent re-check of the compiled property module
     if tier == "thorough" and not broken and spec.get("leanchecker", True):
         with core.LakeLock():
-            rc, out = core.lake(["env", "leanchecker", f"PyProb.Properties.{pid}"], timeout=3000)
+            rc, out = core.lake(["env", "leanchecker"] + [f"PyProb.Properties.{m}" for m in property_modules(pid)], timeout=3000)
         if rc != 0:
             raise MachineryError(f"leanchecker rejected PyProb.Properties.{pid}: {out[-500:]}")
         notes.append("leanchecker: PyProb.Properties.%s re-checked" % pid)
@@ -384,15 +394,19 @@ def flat_facets(rules):
 
 def guess_broken_theorems(pid, log):
     """map error positions in Properties/Cxx.lean to the enclosing theorem names"""
-    path = os.path.join(core.LEAN_DIR, "PyProb", "Properties", pid + ".lean")
     names = []
-    try:
-        with open(path, encoding="utf-8") as fh:
-            src = fh.read().split("\n")
-    except OSError:
-        return names
-    for m in re.finditer(r"Properties/%s\.lean:(\d+):\d+" % pid, log):
-        ln = int(m.group(1))
+    srcs = {}
+    for mod in property_modules(pid):
+        try:
+            with open(os.path.join(core.LEAN_DIR, "PyProb", "Properties", mod + ".lean"), encoding="utf-8") as fh:
+                srcs[mod] = fh.read().split("\n")
+        except OSError:
+            pass
+    for m in re.finditer(r"Properties/(%s\w*)\.lean:(\d+):\d+" % pid, log):
+        src = srcs.get(m.group(1))
+        if src is None:
+            continue
+        ln = int(m.group(2))
         for i in range(min(ln, len(src)) - 1, -1, -1):
             mm = re.match(r"\s*(?:theorem|example|def|lemma)\s+([A-Za-z0-9_'.]*)", src[i])
             if mm:
